@@ -1328,7 +1328,7 @@ class PackIndex1(FilePackIndex):
         self.version = 1
         self._fan_out_table = self._read_fan_out_table(0)
         self.hash_size = self.object_format.oid_length
-        if 0x100 * 4 + (4 + self.hash_size) * len(self) + 2 * self.hash_size > self._size:
+        if 0x100 * 4 + (4 + self.hash_size) * len(self) > self._size:
             raise AssertionError(
                 f"pack index claims {len(self)} objects, more than the file holds"
             )
@@ -1390,7 +1390,7 @@ class PackIndex2(FilePackIndex):
         self._pack_offset_largetable_offset = self._pack_offset_table_offset + 4 * len(
             self
         )
-        if self._pack_offset_largetable_offset + 2 * self.hash_size > self._size:
+        if self._pack_offset_largetable_offset > self._size:
             # a damaged fan-out table: everything that walks the entries
             # would loop over a count the file cannot hold
             raise AssertionError(
@@ -1514,7 +1514,7 @@ class PackIndex3(FilePackIndex):
         self._pack_offset_largetable_offset = self._pack_offset_table_offset + 4 * len(
             self
         )
-        if self._pack_offset_largetable_offset + 2 * self.hash_size > self._size:
+        if self._pack_offset_largetable_offset > self._size:
             # a damaged fan-out table: everything that walks the entries
             # would loop over a count the file cannot hold
             raise AssertionError(
